@@ -48,6 +48,8 @@ def steps_from_states(states, actions, cap_model):
                 forced = False
             steps.append({"t": "recv"})
             realq[k] = max(0, realq[k] - 1)
+        elif act == "DispReload":
+            steps.append({"t": "hup", "n": n["dflt"]})
         elif act == "DispUpgradeSend":
             for r in list(deferred):
                 real_send(r)
@@ -88,6 +90,8 @@ def scenario_from_cex(path, name, mode, cap_model=2):
     steps, forced, filler = steps_from_states(states, actions, cap_model)
     files = {u: {"present": f["present"], "pw": f["pw"], "set": f["set"], "adm": f["adm"]}
              for u, f in states[0]["files"].items()}
+    if any(st.get("t") == "hup" for st in steps) and not any(f["present"] and f["adm"] for f in files.values()):
+        files["u9"] = {"present": True, "pw": "p2", "set": 2, "adm": True}     # a reload is refused unless the directory has an administrator
     return {"name": name, "mode": "local" if mode == "local" else ("" if mode == "off" else mode),
             "default": 2, "files": files, "passwords": PASSWORDS, "steps": steps, "gated": True,
             "seed": 1, "forced": forced, "filler": filler}
@@ -136,8 +140,10 @@ CONSTANTS
     SemCap = 10
     Mode = "%(mode)s"
     UpgradeSend = "drop"
-    UpgradeRecheck = TRUE
+    UpgradeRecheck = "full"
     UpgraderSem = "drop"
+    Reloads = {}
+    IOFaults = TRUE
     MaxCalls = 1
     Kinds = {"auth", "update", "add", "remove", "setadmin", "list"}
     InitFiles <- MCInit1
@@ -205,7 +211,8 @@ def validate(ctx, events, mode, name, default=2, policyok=None):
 def classify_rejection(events, res, default_prop):
     """Which property does a rejected real trace violate?  Based on the first line TLC could not match."""
     if res.get("inv") == "TraceAckedNotUndone":
-        return "C11", "acked-change-undone", "an acknowledged client write was changed by something else"
+        # the only writer besides the clients is the internal hash upgrade: both C11 and C12 forbid what happened
+        return ("C12" if default_prop == "C12" else "C11"), "acked-change-undone", "an acknowledged client write was changed by something else (an internal upgrade)"
     if res.get("inv") == "TraceOwed":
         return "C19", "notify-mismatch", "notifications do not match successful mutations"
     if res.get("inv") == "TraceNoUpgradeWhenOff":
@@ -223,7 +230,7 @@ def classify_rejection(events, res, default_prop):
         return "C12", "upgrade-without-request", "an upgrade began that no successful login had requested: " + d
     pd = next((x for x in reversed(events[:i]) if x["ev"] in ("exec", "upbegin", "upskip", "upsent", "updrop", "notify", "reset")), {"ev": "?"})
     if e["ev"] == "exec" and pd["ev"] == "upbegin":
-        return "C11", "stale-upgrade-applied", "upgrade applied although its password no longer authenticates / hash no longer upgradeable: " + d
+        return ("C12" if default_prop == "C12" else "C11"), "stale-upgrade-applied", "upgrade applied although its password no longer authenticates / hash no longer upgradeable: " + d
     if e["ev"] == "upsent":
         return "C12", "upgrade-without-upgradeable-login", d
     if e["ev"] == "notify" or (e["ev"] in ("exec", "upbegin") and pd["ev"] == "exec" and pd["k"] in ("update", "add", "remove", "setadmin") and pd["ok"]):
@@ -329,6 +336,8 @@ def judge(ctx, scenarios, results, events, name, default_prop):
     for r, sc in zip(results, scenarios):
         if r["hung"]:
             ctx.violation("C10", "wedge:" + r["where"].replace(" ", "-"), "scenario %s hung: %s" % (r["name"], r["where"]))
+            if ctx.pid != "C10":      # this run's own property could not be judged on that scenario
+                ctx.inconclusive.append("scenario %s hung (%s): attributed to C10, the scenario was not judged for %s" % (r["name"], r["where"], ctx.pid))
             continue
         evs = events[r["first"]:r["last"]]
         reset = evs[0]
@@ -343,7 +352,7 @@ def judge(ctx, scenarios, results, events, name, default_prop):
             continue
         for u, f in idle["files"].items():
             if f.get("aux") == "other":
-                ctx.violation("C15", "aux-damaged:%s" % sc["name"].split("-")[0], "auxiliary data of %s changed in %s" % (u, sc["name"]))
+                ctx.violation("C12" if ctx.pid == "C12" and mode == "local" else "C15", "aux-damaged:%s" % sc["name"].split("-")[0], "auxiliary data of %s changed in %s" % (u, sc["name"]))
         for u, want in (sc.get("expect_idle") or {}).items():
             got = idle["files"].get(u, {})
             bad = {k: (got.get(k), v) for k, v in want.items() if got.get(k) != v}
